@@ -121,6 +121,10 @@ func cbArgLiteral(kind string, i int) (src string, val interface{}) {
 		return "nil", nil
 	case "hash":
 		return fmt.Sprintf("{k: %d}", i), map[string]interface{}{"k": i}
+	case "arr":
+		return fmt.Sprintf("[%d, %d]", i, i+1), []interface{}{i, i + 1}
+	case "strs":
+		return "ss", []string{"u", "v"}
 	}
 	panic("harness: arg kind " + kind)
 }
@@ -215,6 +219,7 @@ func c12Run(c *Ctx, raw json.RawMessage) {
 	env := newRunEnv()
 	ctx := env.context(nil)
 	ctx.Set("h", fn.Interface())
+	ctx.Set("ss", []string{"u", "v"})
 	parts := []string{}
 	vals := []interface{}{}
 	for i, a := range cc.Args {
